@@ -324,6 +324,7 @@ def ulp_diff32(a_hex, b_hex):
 DRIVERS = {
     "driver": dict(name="driver", extract_v="theories/Extract/Extract.v", modname="model"),
     "idriver": dict(name="idriver", extract_v="theories/Extract/ExtractInterval.v", modname="imodel"),
+    "sdriver": dict(name="sdriver", extract_v="theories/Extract/ExtractSolver.v", modname="smodel"),
 }
 
 
